@@ -373,7 +373,7 @@ class Program:
         for e in self.enum_decls:
             names = [c["name"] for c in e.get("inner", []) if c.get("kind") == "EnumConstantDecl"]
             if e.get("_typedef") == typedef_or_name or e.get("name") == typedef_or_name:
-                return [(c, self.enums[c]) for c in names]
+                return [(c["name"], c["_value"]) for c in e.get("inner", []) if c.get("kind") == "EnumConstantDecl" and "_value" in c]
         return None
 
     def fn(self, name):
